@@ -23,6 +23,7 @@ type Input struct {
 	Tag   string      // optional: names the extreme value the class is about (used in hang signatures)
 	Op    string      // entry point(s) driven
 	Show  interface{} // JSON-able rendering: enough to re-create the input by hand
+	Fault *faultSpec  // optional single API-server fault that is part of the input's environment (surfaces 1-4)
 	data  interface{} // typed payload for call()
 }
 
